@@ -767,6 +767,7 @@ _FACTS = {
     "C13": ["Generated.ConvIR (tools/convir): getProcessor, processSelect/Plural/Ordinal/NoMarkup, GetProperty, Value.toString, replacePlaceholders == the model for all property lists (Props/C13IR)",
             "Generated.NumFacts.ordinalSwitch (tools/numfacts): the switch of processOrdinal == Markup.ordinalCase for n >= 0 (Props/C13Facts)"],
     "C14": ["Generated.StateFacts.lineParserFields (tools/statefacts): every LineParser field is assigned on entry of ParseMarkup (Props/C07Facts.lineParser_fields_reset_on_entry)"],
+    "C15": ["Generated.ConvIR (tools/convir): the replacement processors and replacePlaceholders == the model, whose totality C15 proves (Props/C13IR)"],
     "C19": ["Generated.ConvIR (tools/convir): toString/toBoolean/toFloat == the model's string/bool/number built-ins for all argument lists (Props/C19IR)",
             "Generated.NumFacts.numBuiltinSrc (tools/numfacts): bodies of round … integer == Ysgo.Num.* for every argument (Props/C19Facts.numBuiltins_are_model)"],
 }
